@@ -49,7 +49,7 @@ CHECKS = {
    ref='7 (C11)'),
  'C12': dict(
    cat='proof',
-   text='Index model (calls generated definitions) proved equal to an OrderedDict specification for every mapping op on caches with distinct keys; persistence; never-loses; concurrent clause on a micro-step machine: full statement refuted by a vm_compute witness (= finding C12-F1, replayed deterministically on the implementation), strongest true restriction proved for all schedules and any number of writers (a lookup fails only if a writer removed the file between the SELECT and the open; never for inline values). Tie: translator + three-way differential run + machine-vs-implementation outcome comparison on random schedules + witness replay.',
+   text='Index model (calls generated definitions) proved equal to an OrderedDict specification for every mapping op on caches with distinct keys; persistence; never-loses; concurrent clause on a micro-step machine: full statement refuted by a vm_compute witness (= finding C12-F1, replayed deterministically on the implementation), strongest true restriction proved for all schedules and any number of writers (a lookup fails only if a writer removed the file between the SELECT and the open; never for inline values); setdefault (a lookup / add loop inside one transaction, read off by the translator) commits atomically on the concurrent machine with the real transaction bodies for every schedule and every program of the other clients, and the three-separate-calls form it had before the repair 9759b46 is refuted by a vm_compute witness. Tie: translator + three-way differential run + machine-vs-implementation outcome comparison on random schedules + witness replay.',
    note='Trusted: Coq kernel; keys restricted to those where cache key identity equals Python == (no bool next to 0/1, no tuples differing only in numeric typing); atomicity of single Index calls from C05/C06; the concurrent machine covers one key, one lookup, replacing writers.',
    tech='Coq refinement proof + micro-step invariant over all schedules + generated model + differential testing + deterministic scheduler',
    ref='7 (C12)'),
